@@ -58,13 +58,40 @@ func anyRouter(*http.Request, *types.Context) bool { return true }
 // 前一个对象返回的实例将作为下一个对象的输入参数。
 func AndMatcher(m ...Matcher) Matcher {
 	return MatcherFunc(func(r *http.Request, ctx *types.Context) bool {
-		for _, mm := range m {
+		// 前面的对象匹配成功时可能已经修改了路径和参数，整体不匹配时需要恢复原样。
+		path := r.URL.Path
+		var params map[string]string
+		if len(m) > 1 {
+			params = make(map[string]string, ctx.Count())
+			ctx.Range(func(k, v string) { params[k] = v })
+		}
+
+		for i, mm := range m {
 			if !mm.Match(r, ctx) {
+				if i > 0 {
+					r.URL.Path = path
+					restoreParams(ctx, params)
+				}
 				return false
 			}
 		}
 		return true
 	})
+}
+
+func restoreParams(ctx *types.Context, params map[string]string) {
+	var dels []string
+	ctx.Range(func(k, _ string) {
+		if _, found := params[k]; !found {
+			dels = append(dels, k)
+		}
+	})
+	for _, k := range dels {
+		ctx.Delete(k)
+	}
+	for k, v := range params {
+		ctx.Set(k, v)
+	}
 }
 
 // OrMatcher 仅需符合一个要求
